@@ -84,8 +84,10 @@ _register_proxy()
 
 
 class CrashFS:
-    def __init__(self, crash_at=None):
+    def __init__(self, crash_at=None, oserror_at=None, torn=0):
         self.crash_at = crash_at
+        self.oserror_at = oserror_at      # the file operation number that fails with OSError (the process lives)
+        self.torn = torn
         self.n = 0
         self.trace: list[str] = []
         self.files: list[FileProxy] = []
@@ -94,6 +96,24 @@ class CrashFS:
     def step(self, kind, f=None, detail=""):
         if self.crash_at is not None and self.n == self.crash_at:
             raise Crash()
+        if self.oserror_at is not None and self.n == self.oserror_at:
+            self.n += 1
+            self.trace.append(kind + ":EIO")
+            if f is not None and kind in ("write", "flush", "close"):
+                # disk full / quota / I/O error: of what was buffered, nothing or half reaches the file
+                data = "".join(f.pending) if f.pending and isinstance(f.pending[0], str) else b"".join(f.pending)
+                keep = data[: {0: 0, 1: len(data) // 2, 2: len(data)}[self.torn]]
+                f.pending = []
+                try:
+                    if keep:
+                        f.real.write(keep)
+                    f.real.flush()
+                    if kind == "close":
+                        f.real.close()
+                        f.closed = True
+                except Exception:  # noqa: BLE001
+                    pass
+            raise OSError(28, "No space left on device")
         self.n += 1
         self.trace.append(kind + (":" + detail if detail else ""))
 
@@ -186,6 +206,8 @@ def run_save(loop, nodes, path, fs: CrashFS | None):
         return "done"
     except Crash:
         return "crashed"
+    except Exception as e:  # noqa: BLE001
+        return "raised " + type(e).__name__
     finally:
         fs.uninstall()
 
@@ -267,6 +289,33 @@ def run(ctx, model_available=True):
         trace = fs.trace
         key = " ".join(t.split(":")[0] + (":" + t.split(":")[-1] if t.startswith("open") else "") for t in trace)
         dist["traces"][key] = dist["traces"].get(key, 0) + 1
+        # an I/O error (not a crash) at every file operation of the save: either the save reports it
+        # (PersistenceWriteError) or, if it returns normally, the file holds what was saved — a save
+        # that swallowed the error would later count as "the registry as last successfully saved"
+        for k in range(len(trace)):
+            for torn in (0, 1):
+                case_i += 1
+                dist["io_fault_points"] = dist.get("io_fault_points", 0) + 1
+                dr = os.path.join(base, f"e{case_i}")
+                os.mkdir(dr)
+                epath = os.path.join(dr, "p.json")
+                run_save(loop, old, epath, None)
+                efs = CrashFS(None, oserror_at=k, torn=torn)
+                eres = run_save(loop, new, epath, efs)
+                for fp in efs.files:
+                    if not fp.closed:
+                        try:
+                            fp.real.close()
+                        except Exception:  # noqa: BLE001
+                            pass
+                eout = load_dir(loop, epath)
+                if eres == "done" and eout != new_show:
+                    failures.append({"kind": "oracle", "sig": "C15:save-reported-success",
+                                     "desc": f"file operation {k} ({efs.trace[-1] if efs.trace else '?'}) of the save failed with OSError; save() returned normally, yet the file loads to {eout[:80]!r} instead of the registry that was saved",
+                                     "case": {"old": oi, "new": ni, "op": k, "torn": torn, "trace": efs.trace}})
+                elif eres not in ("done", "raised PersistenceWriteError"):
+                    failures.append({"kind": "oracle", "sig": "C15:save-error-class",
+                                     "desc": f"file operation {k} of the save failed with OSError; save() ended with {eres}", "case": {"old": oi, "new": ni, "op": k}})
         inplace_shape = len(trace) >= 2 and trace[0].startswith("open:p.json:w") and trace[-1] == "close" and all(t == "write" for t in trace[1:-1])
         for k in range(len(trace) + 1):
             for torn in (0, 1, 2):
